@@ -37,7 +37,8 @@ def prepare(check, tier, flavours=("dev",), profiles=None, n_per_profile=None):
     n = n_per_profile or p["n_per_profile"]
     from .. import gen
     descs = [d for d in corpus.descriptions(check.seed, n, profiles) if "rust" in gen.supported_by(d["features"])]
-    key = "s%d-%s-%s" % (check.seed, tier, common.h(*(profiles or ["all"]), n))
+    import os
+    key = "s%d-%s-%s" % (check.seed, tier, common.h(*(profiles or ["all"]), n, os.environ.get("VERIF_PROFILES", "")))
     rc = RustCorpus(key, descs)
     rc.generate()
     for fl in flavours:
@@ -169,6 +170,30 @@ def struct_tree_field(m, tid, derived_only=True):
     return any(scan(c if isinstance(c, dict) else m.dm[c]) for c in m.descendants(tid))
 
 
+def greedy_struct_field_not_last(m, tid, _depth=0):
+    """does the type hold (own fields, ancestors, nested structs) a field or element whose struct type is
+    *derived*, has a constant total size, and has an ancestor whose payload carries no size field - anywhere
+    but as the very last thing of the encoding? (Array elements count: every element but the last is followed
+    by something.)"""
+    if _depth > 5:
+        return False
+    for x in m.chain(m.dm[tid]):
+        fs = x.get("fields", ())
+        for idx, fl in enumerate(fs):
+            t = fl.get("type_id") if fl["kind"] in ("typedef_field", "array_field") else None
+            if not t or m.kind(t) != "struct_declaration":
+                continue
+            td = m.dm[t]
+            if td.get("parent_id") and m.static_bits_decl(t) is not None and \
+                    any(A.get_payload(a) is not None and m.payload_size_field(a) is None for a in m.chain(td)[:-1]):
+                last = idx == len(fs) - 1 and x is m.dm[tid] and not m.dm[tid].get("parent_id")
+                if fl["kind"] == "array_field" or not last:
+                    return True
+            if greedy_struct_field_not_last(m, t, _depth + 1):
+                return True
+    return False
+
+
 def shape_of_tree(m, pid):
     """depth / constraint kinds / payload sizing of the inheritance tree below pid"""
     def dep(x):
@@ -270,7 +295,12 @@ def enc_worker(task):
                     V("C02", "roundtrip-decode-panics:%s|%s" % (norm_msg(rt["panic"]["msg"]), w2),
                       dict(case, observed=rt["panic"]))
                 elif "ok" not in rt:
-                    V("C02", "roundtrip-decode-failed:%s|%s" % (rt.get("err"), cons), dict(case, observed=rt))
+                    ctx2 = cons
+                    if greedy_struct_field_not_last(m, tid):
+                        # recorded root cause: the field's own decoder is the root struct's, whose unsized
+                        # payload takes the rest of the buffer although the derived struct has a constant size
+                        ctx2 = "derived-struct-with-unsized-root-payload-as-field-before-other-fields"
+                    V("C02", "roundtrip-decode-failed:%s|%s" % (rt.get("err"), ctx2), dict(case, observed=rt))
                 elif rt["ok"] != v or not rt.get("eq"):
                     V("C02", "roundtrip-differs|%s" % cons, dict(case, observed=rt))
             # C02: decode as the root ancestor and specialize back down
@@ -791,7 +821,19 @@ def inh_worker(task):
     res = {"evals": 0, "nontrivial": set(), "viol": [], "samples": [], "abstain": 0, "ops": {},
            "outcomes": {}, "types": 0, "widened": 0, "trees": 0, "variants": {}, "constructs": {}}
 
+    _gh = {}
+
+    def ghaz(t):
+        if t not in _gh:
+            _gh[t] = t in m.dm and (greedy_struct_field_not_last(m, t) or any(
+                greedy_struct_field_not_last(m, c if isinstance(c, str) else c["id"]) for c in m.descendants(t)))
+        return _gh[t]
+
     def V(pid, sig, case):
+        if pid == "C06" and ghaz(case.get("type")) and "panics" not in sig:
+            # recorded root cause (see C02): the child cannot be decoded back from its own bytes
+            case = dict(case, failure=sig)
+            sig = "conversion-diverges|derived-struct-with-unsized-root-payload-as-field-before-other-fields"
         if pid in props:
             case.update({"desc": d["name"], "profile": d["profile"], "gen_seed": d["gen_seed"],
                          "endianness": A.endianness(d["file"]), "flavour": task["flavour"],
